@@ -433,6 +433,80 @@ func refWalk(b []byte) bool {
 	return true
 }
 
+// refPackedExact: with Google's primitives only, follow the options the way the wire format
+// defines them (packed before message, groups and nested messages recursively) and check that
+// every packed payload is consumed exactly by elements of its declared type. Independent of the
+// Lean model and of origami's unpackPacked. Malformed structure is somebody else's verdict (true).
+func refPackedExact(b []byte, o *wopts, depth int) bool {
+	if depth > 70 {
+		return true
+	}
+	for len(b) > 0 {
+		num, typ, n := pw.ConsumeTag(b)
+		if n < 0 {
+			return true
+		}
+		b = b[n:]
+		switch typ {
+		case pw.BytesType:
+			payload, m := pw.ConsumeBytes(b)
+			if m < 0 {
+				return true
+			}
+			b = b[m:]
+			if o.isPacked(int32(num)) {
+				et, ok := o.et[int32(num)]
+				if !ok {
+					return true
+				}
+				for len(payload) > 0 {
+					k := -1
+					switch et {
+					case 0:
+						_, k = pw.ConsumeVarint(payload)
+					case 5:
+						_, k = pw.ConsumeFixed32(payload)
+					case 1:
+						_, k = pw.ConsumeFixed64(payload)
+					default:
+						return true
+					}
+					if k <= 0 {
+						return false
+					}
+					payload = payload[k:]
+				}
+			} else if o.isMsg(int32(num)) {
+				if !refPackedExact(payload, o, depth+1) {
+					return false
+				}
+			}
+		case pw.StartGroupType:
+			// the group's content ends at the matching end tag; find it with the reference walker
+			m := pw.ConsumeFieldValue(num, typ, b)
+			if m < 0 {
+				return true
+			}
+			body := b[:m]
+			// strip the end-group tag (its length is that of the tag varint for (num, EndGroup))
+			endLen := pw.SizeTag(num)
+			if len(body) >= endLen {
+				if !refPackedExact(body[:len(body)-endLen], o, depth+1) {
+					return false
+				}
+			}
+			b = b[m:]
+		default:
+			m := pw.ConsumeFieldValue(num, typ, b)
+			if m < 0 {
+				return true
+			}
+			b = b[m:]
+		}
+	}
+	return true
+}
+
 func hasSub(ns []node) bool {
 	for _, n := range ns {
 		if n.Kind == 'M' || n.Kind == 'G' || n.Kind == 'P' {
@@ -469,6 +543,10 @@ func (r *runner) oneWire(b []byte, o *wopts, how string) {
 		// every byte accounted for: the reference walker accepts the whole input …
 		if !refWalk(b) {
 			r.viol("protowire:accepts-malformed", fmt.Sprintf("ParseRawFields(%s, %s) = %s but the input is not a sequence of well-formed fields (bytes dropped)", hx, os, res.s), cas)
+		}
+		// … every packed payload is exactly a sequence of elements of its declared type …
+		if !refPackedExact(b, o, 0) {
+			r.viol("protowire:accepts-malformed-packed", fmt.Sprintf("ParseRawFields(%s, %s) = %s but a packed payload is not a whole number of elements (trailing bytes dropped)", hx, os, res.s), cas)
 		}
 		// … and the result carries the same information: re-encoding it parses to the same tree and is not longer
 		re := encodeRef(res.nodes)
